@@ -89,7 +89,7 @@ func init() {
 				}
 				for i := 0; i < 12; i++ {
 					p.Times = append(p.Times, Pick(r, []int64{0, 1, -1, -62135596800, 9999999999, 10000000000, 10413792000, 253402300799, -999999999, -1000000000, int64(r.Intn(2000000000))}))
-					p.Zones = append(p.Zones, Pick(r, []int{0, 3600, -3600, 19800, 20700, -43200, 50400, 86399, -86399, 5*3600 + 53*60 + 28, -12600, -34200, -9000, -60, -1800}))
+					p.Zones = append(p.Zones, Pick(r, []int{0, 3600, -3600, 19800, 20700, -43200, 50400, 86399, -86399, 5*3600 + 53*60 + 28, -12600, -34200, -9000, -60, -1800, -2700, -3599}))
 				}
 				return p
 			}
@@ -103,7 +103,7 @@ func init() {
 			if r.Chance(0.5) {
 				p.ClockHours = int64(r.Intn(24 * 365 * 50))
 			}
-			p.ZoneMin = Pick(r, []int{0, 0, 60, -60, 330, 345, -720, 840, 7*60 + 1, -210, -570, -150})
+			p.ZoneMin = Pick(r, []int{0, 0, 60, -60, 330, 345, -720, 840, 7*60 + 1, -210, -570, -150, -45, -30, -1})
 			p.Rows = Pick(r, []int{1, 2, 254, 255, 256})
 			p.Cols = r.Range(1, 3)
 			p.CellLen = Pick(r, []int{0, 1, 100, 30000, 65535})
